@@ -26,13 +26,13 @@ type refPrice struct {
 }
 
 type C16 struct {
-	st      *Stats
-	ref     map[string]*refPrice // asset \x00 source \x00 ts -> entry
-	feeders map[string]bool      // address -> active (absent = not a feeder)
-	Names   []string             // asset names to look up
-	Denoms  []string
-	inited  bool
-	collide map[string]string // raw store key -> ref key currently owning it (documents store-key collisions)
+	st                  *Stats
+	ref                 map[string]*refPrice // asset \x00 source \x00 ts -> entry
+	feeders             map[string]bool      // address -> active (absent = not a feeder)
+	Names               []string             // asset names to look up
+	Denoms              []string
+	inited              bool
+	collide             map[string]string // raw store key -> ref key currently owning it (documents store-key collisions)
 	pendAdd, pendRemove []string
 }
 
